@@ -115,9 +115,36 @@ fn enumerated(idx: u64) -> Option<SenderScn> {
 
 const N_ENUM: u64 = 6 * 4 * 4 * 2 * 2;
 
+/// Being-transferred mode in which the publication made at a transfer start fails whenever a second object
+/// would be listed (Raptor FDT of 1400-byte symbols, see C12): starts are postponed, the ADD ORDER must survive.
+/// All objects have metadata of the same length, so the object that can be announced next is always the oldest.
+fn gen_postponed(rng: &mut Rng) -> SenderScn {
+    let mut spec = SenderSpec::basic(OtiSpec::new(Scheme::Raptor, 1400, 64, 1, true));
+    spec.full_fdt = false;
+    spec.queues = vec![(0, rng.range(2, 4) as u32)];
+    spec.interleave = rng.range(1, 3) as u8;
+    let n = rng.range(3, 5) as usize;
+    let mut objects = Vec::new();
+    let mut ops = Vec::new();
+    for i in 0..n {
+        let mut o = ObjectSpec::basic(rng.range(100, 400) as usize, rng.next_u64(), i);
+        o.oti = Some(OtiSpec::new(Scheme::NoCode, 16, 4, 0, true));
+        objects.push(o);
+        ops.push(TimedOp { when: if i < 2 || rng.chance(0.6) { When::AtUs(0) } else { When::AfterPkt(rng.range(1, 30)) }, op: Op::Add(i) });
+    }
+    let mut poll = PollSpec::simple(1000);
+    poll.burst = if rng.chance(0.5) { None } else { Some(rng.range(1, 6) as u32) };
+    poll.max_polls = 3000;
+    poll.idle_polls_after_done = 1;
+    SenderScn { spec, objects, ops, poll, snapshots: false }
+}
+
 pub fn gen(idx: u64, rng: &mut Rng, _tier: Tier) -> Scn {
     if let Some(s) = enumerated(idx) {
         return Scn { sender: s };
+    }
+    if rng.chance(0.04) {
+        return Scn { sender: gen_postponed(rng) };
     }
     let nq = rng.range(1, 3) as usize;
     let mut prios = vec![0u32, 1, 2, 3, 4];
